@@ -493,7 +493,7 @@ package transport
 //@   pure
 //@ trusted (Websocket).injectGraphQLWSSubprotocols()
 //@ func (Websocket).Do [C11]
-//@   requires r != nil && exec != nil
+//@   requires r != nil && exec != nil && w != nil
 //@   stable wsConnection.exec wsConnection.active
 //@   ghost inited = false
 //@   at `conn.init()` ghost inited = callres0
@@ -746,3 +746,19 @@ package transport
 //@   at! `send messages` requires true
 //@   goensures calls(send) == 1 && calls(NextMessage) == 1
 //@   ensures calls(spawn) == 1
+
+// ---------------------------------------------------------------- C09: best-effort errors (SendError)
+// Same as handler.sendError: the JSON error body never goes out untyped.
+//@ trusted (net/http.ResponseWriter).Header() (h)
+//@   ensures h != nil
+//@   pure
+//@ func SendError [C09]
+//@   requires w != nil
+//@   ghost typed = false
+//@   at! `w.Header().Get("Content-Type")` ghost typed = callres0 != ""
+//@   callsite Set: requires arg0 == "Content-Type" && arg1 == "application/json" && !typed
+//@   at! `w.WriteHeader(code)` requires (typed || calls(Set) == 1) && arg0 == code && calls(Write) == 0
+//@   ensures !panicked ==> calls(WriteHeader) == 1 && calls(Write) == 1
+//@ func SendErrorf [C09]
+//@   requires w != nil
+//@   at! `SendError(w, code, &gqlerror.Error{Message: fmt.Sprintf(format, args...)})` requires arg0 == w && arg1 == code
